@@ -22,6 +22,8 @@ ASSUMPTIONS = [
     "the first time point, the first measure, the first time signature and the first divisions entry are at timeline position 0 (what every importer produces); values before the first signature are not judged",
     "float tolerance 1e-9*(1+|x|) for forward maps, 1e-6 for inverse maps",
     "zero of the maps = end of the first measure iff that measure starts at 0 together with a time signature and is shorter than a full bar, else position 0 (property statement)",
+    "a signature object that repeats the signature in force, a second identical signature object at position 0 and division entries at or after the last time point change no value between the first and the last time point",
+    "a part with one time point has exactly one position (the first point), where all maps are 0",
 ]
 
 PROFILE = G.profile(max_bars=5, max_voices=1, max_staves=1, midbar_changes=True, irregular=True, key_changes=False,
@@ -36,20 +38,54 @@ def strat(tier):
     return st.fixed_dictionaries(
         {
             "part": G.part_spec(prof),
-            "mode": st.sampled_from(["notated", "musical", "musical-custom", "musical-then-notated"]),
+            "mode": st.sampled_from(MODES),
             "mbeats": mb,
+            # user-supplied musical beats for signatures the part really has: [index into the part's signatures, beats]
+            "mbeats_rel": st.one_of(st.just([]), st.lists(st.tuples(st.integers(0, 5), st.integers(1, 6)), min_size=1, max_size=3), st.lists(st.tuples(st.integers(0, 5), st.integers(1, 6)), min_size=2, max_size=3)),
+            # a second, identical signature object at position 0 (one <time> per staff in multi-staff imports)
             "extra_first_ts": st.booleans(),
             # order in which the division changes are applied (any order is documented as valid)
             "div_order": st.one_of(st.just([]), st.lists(st.integers(0, 5), min_size=1, max_size=4)),
+            # which measures exist: all / none (parts from MIDI or note arrays before add_measures) /
+            # all but the first (the part does not open with a measure: zero at the first time point); "late-short":
+            # the same, and the now first measure is cut to half its length and has a signature object at its start
+            "measure_mode": st.sampled_from(["all", "all", "all", "all", "none", "late-first", "late-short"]),
+            # one more division entry at (0) or after (k > 0) the last time point, or none (None)
+            "late_div": st.one_of(st.none(), st.none(), st.none(), st.tuples(st.integers(0, 3), st.sampled_from([1, 2, 3, 4, 8]))),
+            # type of the argument the maps are called with besides int arrays and python ints
+            "arg_type": st.sampled_from(["list", "tuple", "float-array", "numpy-scalar", "python-float"]),
         }
     )
+
+
+# beat mode histories: (calls, musical mode in force afterwards, user-supplied beats in force afterwards)
+MODES = ["notated", "musical", "musical-custom", "musical-then-notated",
+         "set-custom-while-notated", "musical-then-set-custom", "custom-notated-musical", "musical-twice", "custom-then-reset-defaults"]
 
 
 def oracle(spec):
     o = Outcome()
     ps = spec["part"]
     div_order = spec.get("div_order") or None
-    part, _ = build_part(ps, div_order=div_order)
+    mmode = spec.get("measure_mode", "all")
+    built_measures = list(ps["measures"]) if mmode == "all" else ([] if mmode == "none" else list(ps["measures"][1:]))
+    late_short = None
+    if mmode == "late-short" and built_measures:
+        m = built_measures[0]
+        built_measures[0] = [m[0], m[0] + max(1, (m[1] - m[0]) // 2)] + list(m[2:])
+        if all(x[0] != m[0] for x in ps["timesigs"]):
+            late_short = m[0]
+    part, _ = build_part(dict(ps, measures=built_measures), div_order=div_order)
+    if late_short is not None:
+        # a signature object repeating the signature in force: changes no value
+        cur = [x for x in sorted(ps["timesigs"]) if x[0] <= late_short][-1]
+        call(part.add, S.TimeSignature(cur[1], cur[2]), late_short)
+    if spec.get("extra_first_ts"):
+        t0, b0_, bt0_ = sorted(ps["timesigs"])[0]
+        call(part.add, S.TimeSignature(b0_, bt0_), t0)
+    late_div = spec.get("late_div")
+    if late_div:
+        call(part.set_quarter_duration, ps["end"] + late_div[0], late_div[1])
     if div_order and len(ps["divs"]) > 2:
         # set_quarter_duration is documented as: replace an entry at t, otherwise add unless the value
         # in force before t already is q. Applied out of order this yields another table than the
@@ -67,16 +103,43 @@ def oracle(spec):
                 table.append([t, q])
                 table.sort()
         ps = dict(ps, divs=table)
+    if late_div:
+        # an entry at or after the last time point: changes nothing between the first and the last point
+        ps = dict(ps, divs=[list(e) for e in ps["divs"]] + [[ps["end"] + late_div[0], late_div[1]]])
     ref = G.PartRef(ps)
     mode = spec["mode"]
-    mbeats = spec["mbeats"] if mode == "musical-custom" else {}
+    user = dict(spec["mbeats"])
+    for (i, v) in spec.get("mbeats_rel") or []:
+        tsig = ref.timesigs[i % len(ref.timesigs)]
+        user["%d/%d" % (tsig[1], tsig[2])] = v
+    mbeats = {}
     if mode in ("musical", "musical-then-notated"):
         call(part.use_musical_beat)
     elif mode == "musical-custom":
-        call(part.use_musical_beat, dict(mbeats))
+        call(part.use_musical_beat, dict(user))
+        mbeats = user
+    elif mode == "set-custom-while-notated":
+        # the per-signature numbers may be set at any time; they only count while musical beats are enabled
+        call(part.set_musical_beat_per_ts, dict(user))
+    elif mode == "musical-then-set-custom":
+        call(part.use_musical_beat)
+        call(part.set_musical_beat_per_ts, dict(user))
+        mbeats = user
+    elif mode == "custom-notated-musical":
+        # use_notated_beat "also reset[s] the number of musical beats for each time signature to default values"
+        call(part.use_musical_beat, dict(user))
+        call(part.use_notated_beat)
+        call(part.use_musical_beat)
+    elif mode == "musical-twice":
+        call(part.use_musical_beat)
+        call(part.use_musical_beat)  # warns, stays enabled
+    elif mode == "custom-then-reset-defaults":
+        # set_musical_beat_per_ts(): "If a certain time signature is not specified, the default values are used"
+        call(part.use_musical_beat, dict(user))
+        call(part.set_musical_beat_per_ts, {})
     if mode == "musical-then-notated":
         call(part.use_notated_beat)
-    musical = mode in ("musical", "musical-custom")
+    musical = mode in ("musical", "musical-custom", "musical-then-set-custom", "custom-notated-musical", "musical-twice", "custom-then-reset-defaults")
     mb_by_beats = None
     if musical:
         # the reference takes musical beats per (beats, beat_type)
@@ -98,6 +161,19 @@ def oracle(spec):
     o.cls("division-change", bool(div_changes))
     o.cls("division-changes-applied-out-of-order", len(ps["divs"]) > 2 and bool(spec.get("div_order")))
     o.cls("signature-change", bool(ts_changes))
+    o.cls("three-or-more-division-changes", len(div_changes) >= 3)
+    o.cls("three-or-more-signature-changes", len(ts_changes) >= 3)
+    o.cls("no-measures", not built_measures)
+    o.cls("first-measure-starts-after-first-point", bool(built_measures) and built_measures[0][0] > 0)
+    o.cls("late-first-measure-short-with-signature", mmode == "late-short" and bool(built_measures))
+    o.cls("dropped-first-measure-was-a-pickup", mmode != "all" and ps["pickup"] is not None)
+    o.cls("second-signature-object-at-first-point", bool(spec.get("extra_first_ts")))
+    o.cls("division-entry-at-last-point", bool(late_div) and late_div[0] == 0)
+    o.cls("division-entry-after-last-point", bool(late_div) and late_div[0] > 0)
+    o.cls("beat-mode-" + mode)
+    o.cls("user-beats-in-force-differ-from-default", musical and any(mb_by_beats[k] != G.MUSICAL_BEATS.get(k[0], k[0]) for k in mb_by_beats))
+    o.cls("user-beats-given-but-not-in-force", not mbeats and mode in ("set-custom-while-notated", "custom-notated-musical", "custom-then-reset-defaults")
+          and any(user.get("%d/%d" % (b_, bt_), G.MUSICAL_BEATS.get(b_, b_)) != G.MUSICAL_BEATS.get(b_, b_) for (_, b_, bt_) in ref.timesigs))
 
     # ---- reference maps (Fractions) --------------------------------------
     def beat_factor(t):
@@ -121,12 +197,16 @@ def oracle(spec):
         return table[a] + (dq * beat_factor(a) if beat else dq)
 
     # origin: pickup iff first measure (at 0, with a signature at 0) is shorter than a full bar
-    m0 = ps["measures"][0]
+    # (without a measure at the first point the part does not open with a pickup: zero at the first time point)
     b0, bt0 = ref.ts_at(0)
-    first_q = ref_at(m0[1], qpos, False) - ref_at(m0[0], qpos, False)
-    first_b = ref_at(m0[1], bpos, True) - ref_at(m0[0], bpos, True)
     full_q = Fraction(b0 * 4, bt0)
     full_b = Fraction(mb_by_beats[(b0, bt0)]) if musical else Fraction(b0)
+    if built_measures and built_measures[0][0] == 0:
+        m0 = built_measures[0]
+        first_q = ref_at(m0[1], qpos, False) - ref_at(m0[0], qpos, False)
+        first_b = ref_at(m0[1], bpos, True) - ref_at(m0[0], bpos, True)
+    else:
+        first_q, first_b = full_q, full_b
     q_shift = first_q if first_q < full_q else Fraction(0)
     b_shift = first_b if first_b < full_b else Fraction(0)
     o.cls("pickup-shift-applies", q_shift != 0)
@@ -158,6 +238,38 @@ def oracle(spec):
         sv = call(bm, t)
         if abs(float(sv) - float(bv[t])) > 1e-12:
             o.add("beat_map-scalar-array-disagree", t=t)
+    # other documented argument types ("scalar values or lists/arrays of values") give the same values
+    at = spec.get("arg_type")
+    if at:
+        o.cls("argument-type-" + at)
+        ints = [int(t) for t in ts_]
+        for name, fn, vals in (("quarter_map", qm, qv), ("beat_map", bm, bv)):
+            if at == "list":
+                got = np.asarray(call(fn, ints), dtype=float)
+            elif at == "tuple":
+                got = np.asarray(call(fn, tuple(ints)), dtype=float)
+            elif at == "float-array":
+                got = np.asarray(call(fn, ts_.astype(float)), dtype=float)
+            elif at == "numpy-scalar":
+                got = np.array([float(call(fn, np.int64(t))) for t in ints[:: max(1, len(ints) // 6)]])
+                vals = vals[:: max(1, len(ints) // 6)]
+            else:
+                got = np.array([float(call(fn, float(t))) for t in ints[:: max(1, len(ints) // 6)]])
+                vals = vals[:: max(1, len(ints) // 6)]
+            if got.shape != vals.shape or np.any(np.abs(got - vals) > 1e-12):
+                o.add(name + "-argument-type-changes-value", arg_type=at)
+        for name, fn, vals in (("inv_quarter_map", iqm, qv), ("inv_beat_map", ibm, bv)):
+            if at in ("list", "tuple"):
+                seq = [float(v) for v in vals]
+                got = np.asarray(call(fn, seq if at == "list" else tuple(seq)), dtype=float)
+                if got.shape != ts_.shape or np.any(np.abs(got - ts_) > 1e-6):
+                    o.add(name + "-argument-type-changes-value", arg_type=at)
+            elif at in ("numpy-scalar", "python-float"):
+                for t in ints[:: max(1, len(ints) // 6)]:
+                    v = np.float64(vals[t]) if at == "numpy-scalar" else float(vals[t])
+                    if abs(float(call(fn, v)) - t) > 1e-6:
+                        o.add(name + "-argument-type-changes-value", arg_type=at, t=t)
+                        break
     # inverse maps undo forward maps at every position
     back = np.asarray(call(iqm, qv), dtype=float)
     bad = np.where(np.abs(back - ts_) > 1e-6)[0]
@@ -180,8 +292,13 @@ def oracle(spec):
 
 # ------------------------------------------------------------------ divisions in force after any call order
 def strat_qd(tier):
-    call_ = st.tuples(st.integers(0, 14), st.sampled_from([1, 2, 3, 4, 6]))
-    return st.fixed_dictionaries({"q0": st.sampled_from([1, 2, 4]), "calls": st.lists(call_, min_size=1, max_size=7), "end": st.integers(15, 24)})
+    # times also at and after the last time point (end is 15..24), larger divisions as importers use them
+    call_ = st.tuples(st.one_of(st.integers(0, 14), st.integers(0, 14).map(lambda x: x), st.integers(0, 30)), st.sampled_from([1, 2, 3, 4, 6, 12, 480]))
+    return st.fixed_dictionaries({
+        "q0": st.sampled_from([1, 2, 4]), "calls": st.lists(call_, min_size=1, max_size=7), "end": st.integers(15, 24),
+        # the timed objects are added before (True) or after (False) the calls; the maps are read between the calls
+        "objects_first": st.booleans(), "read_between": st.booleans(),
+    })
 
 
 def oracle_qd(spec):
@@ -192,7 +309,16 @@ def oracle_qd(spec):
     table = [[0, spec["q0"]]]
     order_increasing = True
     last_t = -1
+    objects_first = bool(spec.get("objects_first"))
+    if objects_first:
+        part.add(S.Measure(number=1), 0, spec["end"])
+        part.add(S.TimeSignature(4, 4), 0)
     for (t, q) in spec["calls"]:
+        if spec.get("read_between"):
+            # reading the maps must not freeze them
+            call(part.quarter_duration_map, float(t))
+            if objects_first:
+                call(part.quarter_map, t)
         call(part.set_quarter_duration, t, q)
         at = [e for e in table if e[0] == t]
         before = [e for e in table if e[0] < t]
@@ -204,11 +330,17 @@ def oracle_qd(spec):
         if t <= last_t:
             order_increasing = False
         last_t = t
-    part.add(S.Measure(number=1), 0, spec["end"])
-    part.add(S.TimeSignature(4, 4), 0)
+    if not objects_first:
+        part.add(S.Measure(number=1), 0, spec["end"])
+        part.add(S.TimeSignature(4, 4), 0)
     o.nontrivial = not order_increasing and len(table) >= 3
     o.cls("calls-out-of-order", not order_increasing)
     o.cls("three-or-more-entries", len(table) >= 3)
+    o.cls("call-at-or-after-last-point", any(t >= spec["end"] for t, _ in spec["calls"]))
+    o.cls("call-at-last-point", any(t == spec["end"] for t, _ in spec["calls"]))
+    o.cls("objects-added-before-the-calls", objects_first)
+    o.cls("maps-read-between-the-calls", bool(spec.get("read_between")))
+    o.cls("call-replaces-the-entry-at-zero", any(t == 0 for t, _ in spec["calls"]))
 
     def f(x):
         cur = table[0][1]
@@ -218,6 +350,12 @@ def oracle_qd(spec):
         return cur
 
     xs = np.arange(0, spec["end"] + 1)
+    xs_far = np.arange(0, 34)  # the divisions in force also beyond the last time point
+    got = np.asarray(call(part.quarter_duration_map, xs_far.astype(float)))
+    for x, g in zip(xs_far, got):
+        if int(g) != f(int(x)):
+            o.add("quarter_duration_map-wrong-after-unordered-calls", t=int(x), got=float(g), expected=f(int(x)), calls=spec["calls"], q0=spec["q0"])
+            return o
     got = np.asarray(call(part.quarter_duration_map, xs.astype(float)))
     for x, g in zip(xs, got):
         if int(g) != f(int(x)):
@@ -233,6 +371,51 @@ def oracle_qd(spec):
     return o
 
 
+# ------------------------------------------------------------------ the smallest timeline: one time point
+def enum_single(tier):
+    out = []
+    for q0 in (1, 4):
+        for obj in ("timesig", "timesig+zero-length-measure", "clef"):
+            for arg in ("int-array", "list", "python-int", "python-float", "numpy-scalar"):
+                for mode in ("notated", "musical"):
+                    out.append({"q0": q0, "objects": obj, "arg_type": arg, "mode": mode})
+    return out
+
+
+def oracle_single(spec):
+    """A part whose only time point is 0 (e.g. a silent staff that carries nothing but its attributes): the only
+    position between the first and the last time point is 0, where zero lies; scalar, list and array arguments
+    are the documented argument types of the maps."""
+    o = Outcome()
+    part = S.Part("P", quarter_duration=spec["q0"])
+    if spec["objects"].startswith("timesig"):
+        part.add(S.TimeSignature(6, 8), 0)
+        if "measure" in spec["objects"]:
+            part.add(S.Measure(number=1), 0, 0)
+    else:
+        part.add(S.Clef(1, "G", 2, 0), 0)
+    if spec["mode"] == "musical":
+        call(part.use_musical_beat)
+    at = spec["arg_type"]
+    arg = {"int-array": np.array([0]), "list": [0], "python-int": 0, "python-float": 0.0, "numpy-scalar": np.int64(0)}[at]
+    o.nontrivial = True
+    o.cls("argument-type-" + at)
+    for name in ("quarter_map", "beat_map", "inv_quarter_map", "inv_beat_map"):
+        fn = call(lambda: getattr(part, name))
+        try:
+            got = call(fn, arg)
+        except SutRaised as e:
+            o.add("single-point-part-" + e.kind, map=name, arg_type=at, text=e.text)
+            continue
+        got = np.asarray(got, dtype=float)
+        if got.size != 1 or abs(float(got.reshape(-1)[0])) > 1e-12:
+            o.add("single-point-part-map-not-zero-at-the-first-point", map=name, arg_type=at, got=got.tolist())
+    qd = np.asarray(call(part.quarter_duration_map, arg), dtype=float)
+    if qd.size != 1 or int(qd.reshape(-1)[0]) != spec["q0"]:
+        o.add("single-point-part-quarter-duration-map-wrong", got=qd.tolist(), arg_type=at)
+    return o
+
+
 SUBCHECKS = [
     SubCheck(
         "time_maps",
@@ -240,7 +423,8 @@ SUBCHECKS = [
         strategy=strat,
         budget={"quick": 250, "thorough": 6000},
         rule="generated parts with division/time-signature changes (on and off bar lines), pickups, irregular bars, notated/musical beats; maps compared with Fraction arithmetic at every integer position; non-trivial = >=1 division change and >=1 signature change strictly inside the timeline",
-        floors={"pickup": 0.05, "musical-beats-with-ts-change": 0.03, "change-not-on-barline": 0.05},
+        floors={"pickup": 0.05, "musical-beats-with-ts-change": 0.03, "change-not-on-barline": 0.05, "no-measures": 0.05, "first-measure-starts-after-first-point": 0.03, "late-first-measure-short-with-signature": 0.03,
+                "user-beats-in-force-differ-from-default": 0.04, "user-beats-given-but-not-in-force": 0.03, "argument-type-list": 0.05, "division-entry-after-last-point": 0.03},
     ),
     SubCheck(
         "divisions_after_unordered_calls",
@@ -248,6 +432,17 @@ SUBCHECKS = [
         strategy=strat_qd,
         budget={"quick": 300, "thorough": 20000},
         rule="set_quarter_duration called 1-7 times in arbitrary order with repeated values; quarter_duration_map at every position and the slope of quarter_map compared with the documented rule; non-trivial = calls out of temporal order and >= 3 table entries",
-        floors={"calls-out-of-order": 0.3},
+        floors={"calls-out-of-order": 0.3, "call-at-or-after-last-point": 0.1, "objects-added-before-the-calls": 0.2},
+    ),
+    SubCheck(
+        "single_time_point",
+        oracle_single,
+        enumerate=enum_single,
+        shards=1,
+        rule="parts with exactly one time point (at 0), all four maps and the quarter-duration map called with every documented argument type; every case counts",
+        known={
+            "scalar-query-on-single-point-part-raises": lambda spec, disc: disc["kind"].startswith("single-point-part-sut-raised:TypeError")
+            and spec["arg_type"] in ("python-int", "python-float", "numpy-scalar"),
+        },
     ),
 ]
